@@ -24,6 +24,14 @@ def run(pid, tier):
 
 
 def setup():
+    """Warm the build caches (dependencies, runtime crates, one tiny family per engine) from files on disk."""
+    from . import e3t, fam_profiles as fp, fam_threads
+
+    p = fp.build("try_join_async_spawn", (2, 1))
+    e2.run_family("warm", [fp.to_prog("warm", p, [[0]])], extra_header=fp.HEADER)
+    for tier in ("quick",):
+        e3t.build("profiles_%s" % tier, fam_threads.all_sets(tier))
+    print("setup ok")
     return 0
 
 
@@ -188,6 +196,7 @@ def c05(tier, rep):
     progs, profs, bound = tryfail_family(tier)
     fr = e2.run_family("tryfail", progs, extra_header=fp.HEADER)
     judge_classes(rep, fr, "value")
+    run_threads(rep, tier, "c05", "try macro under a thread schedule", keep=lambda w: not w.startswith("per-branch event") and "earlier step" not in w)
     rep.set("profiles", len(profs))
     rep.set("rule", "%s x 6 try macros x {Result, Option} (async: Result); rows = EVERY subset of (branch, step) positions marked failing; oracle: result value = the lowest-numbered branch failing in the earliest failing step, payload unchanged (async kinds: any branch failing in that step), all-success rows = Some/Ok of the tuple; non-trivial program = trace non-empty and >= 2 distinct outcomes" % bound)
     sample_family(rep, progs, fr)
@@ -200,6 +209,66 @@ def c06(tier, rep):
     progs, profs, bound = tryfail_family(tier)
     fr = e2.run_family("tryfail", progs, extra_header=fp.HEADER)
     judge_classes(rep, fr, "trace")
+    run_threads(rep, tier, "c05", "try macro under a thread schedule", keep=lambda w: not w.startswith("result differs"))
     rep.set("profiles", len(profs))
     rep.set("rule", "%s x 6 try macros x {Result, Option}; every step >= 1 of every branch carries a block capture, an error-side callback/operand and a non-closure operand with a visible evaluation; rows = EVERY subset of failing (branch, step) positions; oracle on the event trace: equal to the reference's (sequential kinds: full order; spawn kinds: per-branch projections + step monotonicity; async: per-branch prefix), i.e. nothing of a later step and no handler after a failing step, the failing step complete in sync/spawn kinds" % bound)
     sample_family(rep, progs, fr)
+
+
+# -------------------------------------------------------------------------------------------------
+def run_threads(rep, tier, setname, what, keep=None):
+    """build the E3-T harness (all sets share one binary) and run one set"""
+    from . import e3t, fam_threads
+
+    sets = fam_threads.all_sets(tier)
+    exe, cviol = e3t.build("profiles_%s" % tier, sets)
+    progs = sets[setname]
+    progs = [p for p in progs if p.id not in {q.id for q, _ in cviol}]
+    res = e3t.run_set(exe, setname, progs)
+    rep.add("thread_programs", res.programs)
+    rep.add("thread_rows", res.rows)
+    rep.add("schedules", res.executions)
+    rep.add("states", res.states)
+    rep.add("transitions", res.decisions + res.executions)
+    rep.add("traces_validated_against_impl", res.executions)
+    rep.add("evaluations", res.executions)
+    rep.add("distinct_nontrivial", res.nontrivial)
+    rep.set("max_operation_orders_of_one_program_row", res.max_orders)
+    rep.set("scheduler_selftest", res.selftest)
+    rep.add("e3t_run_s", round(res.run_s, 1))
+    if res.capped:
+        rep.exhaustive = False
+        rep.notes.append("%d thread programs hit the execution cap" % res.capped)
+    for q, rendered in cviol:
+        if q.id in {p.id for p in sets[setname]}:
+            rep.violate("%s | compile" % q.meta.get("dsl", q.id), "macro output does not compile where the reference does: %s" % q.meta.get("dsl", q.id), {"rustc": rendered, "dsl": q.meta.get("dsl")})
+    for p, v, n in res.violations:
+        if keep is not None and not keep(v["what"]):
+            rep.add("violations_left_to_sibling_property", 1)
+            continue
+        rep.violate(
+            "%s | row %s | caller %s" % (p.meta.get("dsl", p.id), v["row"], v["caller"]),
+            "%s: %s [%s; fault row %s, caller %s, schedule %s; %d failing schedules]" % (what, v["what"], p.meta.get("dsl", p.id)[:300], v["row"], v["caller"], v["schedule"], n),
+            {"program": p.id, "dsl": p.meta.get("dsl"), "reference": p.meta.get("ref"), "execution": v, "mac_body": p.mac, "ref_body": p.ref, "engine": "E3-T"},
+        )
+    for p in progs[:: max(1, len(progs) // 3)][:3]:
+        rep.sample({"dsl": p.meta.get("dsl"), "execution": res.results[p.id].get("sample"), "schedules": res.results[p.id]["executions"]})
+    return res
+
+
+@check("C08", "model_checking")
+def c08(tier, rep):
+    run_threads(rep, tier, "c08", "thread-spawning macro")
+    rep.set("rule", "flat depth profiles n<=3,d<=3 x {join_spawn,try_join_spawn,spawn,try_spawn} x callers {main,w7,unnamed} + nested spawn macros (depth 2, 3); EVERY order of visible operations (baton scheduler over the real generated code, ::std::thread resolved to the vstd shim); per execution: no deadlock, thread name = <caller>_join_<branch index>, distinct threads per active branch, single-active-branch steps on the caller, the caller acts only when every thread of the step has finished; non-trivial program = >= 2 distinct operation orders")
+
+
+@check("C03", "model_checking")
+def c03(tier, rep):
+    run_threads(rep, tier, "c03", "step barrier (threads)")
+    rep.set("rule", "depth profiles n<=3,d<=3 x 4 thread-spawning macros, plain / capture-rich / deferred-wrapper steps; EVERY order of visible operations; per execution: no event of step k+1 before the last event of step k (captures, operands, callbacks alike), each branch's per-step arguments equal the reference's (continues from its own value), result equal; non-trivial program = >= 2 distinct operation orders")
+
+
+@check("C18", "fault_enumeration")
+def c18(tier, rep):
+    run_threads(rep, tier, "c18", "panic propagation (threads)")
+    rep.set("rule", "depth profiles x 4 thread-spawning macros x EVERY single panic position (x every failure subset for small try programs) x EVERY order of visible operations; per execution: the macro evaluation panics on the caller, no deadlock, no event of a later step")
